@@ -115,6 +115,7 @@ def check(repo: Repo) -> Result:
 
     namespaces(repo, res)
     filing(repo, res)
+    rewrites(repo, res, t, uni)
 
     r5 = res.rule("C14-R5", "prefixable flag of every row equals the documented one; no documented unit is missing", floor=140)
     for sym, (dim, scale, off, tol, pref, src) in SPEC.UNITS.items():
@@ -235,6 +236,65 @@ def namespaces(repo, res):
     txt = norm(fn.node)
     ok = "namespace[name] = Unit(unit.expr, registry=registry)" in txt and "namespace[name] = Unit(name, registry=registry)" in txt and "for name in [k for k in registry.keys() if k not in namespace]" in txt
     res.check(ok, "add_symbols", fn.where(), "add_symbols rebuilds every exported unit name in the given registry and adds the registry's own symbols", rid=r4)
+
+
+def rewrites(repo, res, t, uni):
+    """C14-R7: parse_unyt_expr rewrites the text before it is parsed (constant str.replace steps: % -> percent,
+    the degree signs -> names).  The chain is folded from the source and applied to every documented name that contains
+    a rewritten character: the result must again be a documented name with the same reading (unit and prefix value),
+    otherwise that documented spelling cannot be used as a unit string - or denotes another unit as a string than as
+    an attribute."""
+    r7 = res.rule("C14-R7", "the parser's text rewrites map every documented name onto a documented name of the same unit", floor=20)
+    fn = repo.mod(PAR).func("parse_unyt_expr")
+    res.fn(fn)
+    p0 = fn.params[0]
+    chain = []
+    for st in fn.body:
+        if isinstance(st, ast.Try):
+            break
+        for a in ast.walk(st):
+            if isinstance(a, ast.Assign) and norm(a.targets[0]) == p0 and isinstance(a.value, ast.Call) and isinstance(a.value.func, ast.Attribute) and a.value.func.attr == "replace":
+                c = a.value
+                if norm(c.func.value) != p0 or len(c.args) != 2 or not all(isinstance(x, ast.Constant) and isinstance(x.value, str) for x in c.args):
+                    raise AnalysisError(f"{fn.where(a)}: a text rewrite is not a replace of constants on the input: {norm(a)[:70]}")
+                chain.append((c.args[0].value, c.args[1].value))
+    if len(chain) < 2:
+        raise AnalysisError(f"{fn.where()}: the rewrite chain of parse_unyt_expr was not found")
+
+    def rewrite(text):
+        for a, b in chain:
+            text = text.replace(a, b)
+        return text
+
+    lut = t.lut
+
+    def denotes(readings):
+        vals = set()
+        for canon, pv in readings:
+            row = lut[canon]
+            vals.add((repr(row[1]), f"{row[0] * pv:.12e}", float(row[2])))
+        return vals
+
+    groups = {}
+    n = 0
+    for name, readings in sorted(uni.items()):
+        new = rewrite(name)
+        if new == name:
+            continue
+        n += 1
+        if new in uni and denotes(uni[new]) == denotes(readings):
+            res.ok(f"rewrite:{name}", r7)
+            continue
+        # group the failures by (canonical unit, spelling class) so that one cause is one finding
+        canon = sorted(readings)[0][0]
+        pv = sorted(readings)[0][1]
+        cls = "bare" if pv == 1.0 else ("word-prefixed" if any(name.lower().startswith(w) for _, (_, w) in t.prefix_pairs if w) and not any(name.startswith(p_) and name[len(p_):] in dict(t.alternatives).get(canon, ()) for p_, _ in t.prefix_pairs) else "symbol-prefixed")
+        groups.setdefault((canon, cls), []).append((name, new, "not a documented name" if new not in uni else f"denotes {sorted(uni[new])}"))
+    for (canon, cls), items in sorted(groups.items()):
+        ex = items[0]
+        res.bad(f"rewrite:{canon}:{cls}", fn.where(), f"{len(items)} documented {cls} spellings of {canon} (e.g. {ex[0]!r}) are rewritten to {ex[1]!r}, which is {ex[2]}: the name is exported as an attribute but cannot be used as a unit string", "a documented name of the same unit", [i[0] for i in items][:6], rid=r7)
+    if n < 20:
+        raise AnalysisError(f"{fn.where()}: only {n} documented names are touched by the rewrite chain {chain}")
 
 
 def filing(repo, res):
@@ -380,4 +440,5 @@ MUTANTS = [
     Mutant("cal-not-prefixable", LUT, None, '("cal", (4.184, dimensions.energy, 0.0, r"\\rm{cal}", True))', '("cal", (4.184, dimensions.energy, 0.0, r"\\rm{cal}", False))', ("C14-R5",)),
     Mutant("title-case-filed-under-bare-unit", LUT, "generate_name_alternatives", "                            append_name(names[up + key], up + key, alt.title())", "                            append_name(names[key], up + key, alt.title())", ("C14-R6",)),
     Mutant("alias-map-written-directly", LUT, "generate_name_alternatives", "                append_name(names[key], key, alt)\n", "                append_name(names[key], key, alt)\n                inv_names[alt.upper()] = key\n", ("C14-R6",)),
+    Mutant("degree-sign-to-long-alias", PAR, "parse_unyt_expr", '    unit_expr = unit_expr.replace("°", "deg")\n', '    unit_expr = unit_expr.replace("°C", "degree_celsius")\n    unit_expr = unit_expr.replace("°", "deg")\n', ("C14-R7",)),
 ]
